@@ -37,6 +37,7 @@ def run(ctx):
                    row["states"], {h: [x["up"], x["ro"], x["src"]] for h, x in row["hosts"].items()}, row["scn"]))
         v.fail(name, sig, what, {"scenario": sc, "row": cluster.compact_final(row),
                                  "how": "VERIF_SCENARIO=<scenario json> go test -run TestVerifReplay ./internal/app (overlay)"})
+    skel = cluster.skeleton_rows(ctx, rows)
     finals = [x for x in rows if x["kind"] == "final"]
     distinct = len({x["scn"] for x in finals})
     cov = {
@@ -49,6 +50,7 @@ def run(ctx):
                 "rounds (tick+health+recovery per live instance, 1 s each). non-trivial = run in which the cut fired "
                 "(distinct scenario ids)",
         "samples": [cluster.compact_final(x) for x in finals[:2]],
+        "control_skeleton": skel,
         "final_states_checked": len(finals), "base_scenarios": meta["bases"], "mc": mc,
         "unrecoverable_panics_in_mysync_goroutines": [{"scenario": c["scenario"]["id"], "panic": c["panic"], "frames": c["frames"][:3]}
                                                       for c in getattr(ctx, "crashes", [])],
